@@ -3,7 +3,7 @@
    explicitly stated fixed-output-length premises of C08_binding_64 / C08_binding_any_width. *)
 From Coq Require Import NArith ZArith List Bool.
 From Coq.Strings Require Import Byte.
-From LV Require Import Lib.Bytes Lib.Decimal Model.C08 Model.C08_Claim Proofs.C08.
+From LV Require Import Lib.Bytes Lib.Decimal Model.C08 Model.C08_Claim Model.C08_Cache Proofs.C08 Proofs.C08_Cache.
 Import ListNotations.
 
 (* Every genuine proof is accepted: for ALL leaf lists and ALL indices, folding the generated branch
@@ -232,6 +232,53 @@ Theorem C08_dup_last_same_root : forall (dsha : bytes -> bytes) (l : list bytes)
 Proof. exact dup_last_same_root. Qed.
 Print Assumptions C08_dup_last_same_root.
 
+(* ---------- the cache around maybe_verify_transaction (request_transactions(cached=True), update_headers) ---------- *)
+(* For EVERY sequence of cached requests, header extensions and reorganisations, starting from an empty
+   cache: a request that is answered from the cache returns a transaction flagged verified whose stored
+   bytes and proof check against the header the wallet holds NOW at that height. *)
+Theorem C08_cache_hit_sound : forall (dsha : bytes -> bytes) headers0 ops key raw h arg net st,
+  let s := final dsha {| w_headers := headers0; w_cache := [] |} ops in
+  snd (request dsha s key raw h arg net) = Hit st ->
+  t_verified st = true /\
+  exists e, lookup key (w_cache s) = Some (Some e) /\ c_st e = st /\
+            (0 < t_height st < Z.of_nat (length (w_headers s)))%Z /\
+            proof_checks dsha (w_headers s) (c_raw e) (t_height st) (c_resp e).
+Proof. exact cache_hit_sound. Qed.
+Print Assumptions C08_cache_hit_sound.
+
+(* ... and the same for whatever sits in the cache after a request (served or downloaded). *)
+Theorem C08_cache_entries_sound : forall (dsha : bytes -> bytes) headers0 ops key raw h arg net,
+  let s := final dsha {| w_headers := headers0; w_cache := [] |} ops in
+  let s' := fst (request dsha s key raw h arg net) in
+  forall e, lookup key (w_cache s') = Some (Some e) -> entry_ok dsha (w_headers s') e.
+Proof. exact request_verified_sound. Qed.
+Print Assumptions C08_cache_entries_sound.
+
+(* An item cached while it could not be verified (e.g. its header was not known yet) never answers a
+   request: the transaction is downloaded and checked again ... *)
+Theorem C08_cached_unverified_is_refetched : forall (dsha : bytes -> bytes) s key raw h arg net e,
+  lookup key (w_cache s) = Some (Some e) -> t_verified (c_st e) = false ->
+  snd (request dsha s key raw h arg net) =
+  Fetched (mv_state (maybe_verify dsha (w_headers s) (fresh h) raw h arg net))
+          (mv_outcome (maybe_verify dsha (w_headers s) (fresh h) raw h arg net)).
+Proof. exact unverified_item_is_refetched. Qed.
+Print Assumptions C08_cached_unverified_is_refetched.
+
+(* ... so a genuine proof presented through the cached path at a height that now has the block's header
+   always comes back verified, whatever the cache held. *)
+Theorem C08_genuine_request_verified : forall (dsha : bytes -> bytes) s key raws idx h arg net r,
+  (idx < length raws)%nat -> in_range (w_headers s) h ->
+  merkle_root dsha (map dsha raws) = Some r ->
+  header_root_raw (nth (Z.to_nat h) (w_headers s) []) = r ->
+  effective arg net = {| m_merkle := Some (map wire (branch dsha (map dsha raws) idx));
+                         m_pos := Some (Z.of_nat idx) |} ->
+  match snd (request dsha s key (nth idx raws []) h arg net) with
+  | Hit st => t_verified st = true
+  | Fetched st out => t_verified st = true /\ t_height st = h /\ t_position st = Z.of_nat idx /\ out = RetTx
+  end.
+Proof. exact genuine_request_verified. Qed.
+Print Assumptions C08_genuine_request_verified.
+
 (* ---------- non-vacuity (each a closed computation: tuples compared component-wise) ---------- *)
 (* a 5-leaf tree (two odd levels), index 4: branch of 3 siblings, fold reaches the root *)
 Example C08_ex_genuine :
@@ -289,4 +336,23 @@ Example C08_ex_legacy_claim_model :
   let root := match outpoint_hash toy_hash th 1 5 with Some oh => toy_hash oh | None => [] end in
   (verify_proof toy_hash pf (wire root) [], verify_proof toy_hash pf (wire root) [x61],
    verify_proof toy_hash pf (wire (leaf_n 1)) []) = (CpTrue, CpInvalid, CpInvalid).
+Proof. vm_compute. reflexivity. Qed.
+
+(* cache: verified at height 2, served from the cache after an extension, downloaded again (and now
+   rejected) after a reorganisation whose lowest replaced height is 2; a transaction first requested
+   above the tip is cached unverified and verified on the next request once its header arrived *)
+Example C08_ex_cache :
+  let raws := map leaf_n [1; 2; 3]%N in
+  let l := map toy_hash raws in
+  let root := match merkle_root toy_hash l with Some r => r | None => [] end in
+  let m := {| m_merkle := Some (map wire (branch toy_hash l 1)); m_pos := Some 1%Z |} in
+  let req := OpRequest (leaf_n 77) (nth 1 raws []) 2 (Some m) m in
+  let h0 := [header_with_root (leaf_n 0); header_with_root (leaf_n 0)] in
+  snd (run toy_hash {| w_headers := h0; w_cache := [] |}
+         [req; OpExtend [header_with_root root]; req; OpExtend [header_with_root (leaf_n 9)]; req;
+          OpReorg 2 [header_with_root (leaf_n 5); header_with_root (leaf_n 6)]; req]) =
+  [Some (Fetched {| t_height := 2; t_position := (-1)%Z; t_verified := false |} RetTx); None;
+   Some (Fetched {| t_height := 2; t_position := 1; t_verified := true |} RetTx); None;
+   Some (Hit {| t_height := 2; t_position := 1; t_verified := true |}); None;
+   Some (Fetched {| t_height := 2; t_position := 1; t_verified := false |} RetTx)].
 Proof. vm_compute. reflexivity. Qed.
